@@ -210,8 +210,6 @@ fn check_pair(c: &mut Ctx, epoch: i64, off: i64, stream: &str) {
                             c.oracle_fail(&format!("rt:{}->{}", which, pname), "parsing the Z date string back gives another instant / offset", json!({"epoch": epoch, "text": obj_text(o), "got": show_parsed(&r)}));
                         }
                     }
-                    // F-C18-a: the time backend has a single format with a mandatory numeric offset — witness stream
-                    Ok(None) if *pname == "time" => c.count("zform.time_rejects(F-C18-a)"),
                     Ok(None) => c.oracle_fail(&format!("rt-err:{}->{}", which, pname), "the Z date string does not parse back", json!({"epoch": epoch, "text": obj_text(o)})),
                     Err((site, msg)) => c.oracle_fail(&format!("panic@{}", site), msg, case.clone()),
                 }
@@ -243,7 +241,7 @@ pub fn run(c: &mut Ctx) {
     c.rule = "all 2879 UTC offsets -23:59..+23:59 at a fixed instant (exhaustive in both tiers) x 3 offset-carrying producers \
 (chrono DateTime<Local> via TZ on a fresh thread, jiff Zoned, time OffsetDateTime) x 3 parsers = 9 ordered backend pairs, plus the two UTC \
 producers (Z form) x 3 parsers; sampled (instant, offset) pairs over years 0001-9999 incl. leap days, year/century boundaries and the ends of \
-the range; the specification's date-only and minute-precision examples; as_datetime on arbitrary objects. Non-trivial = offset != 0 or \
+the range; the specification's date-only, minute-precision and Z examples through all three backends; From<time::Time> for 96 times of day; as_datetime on arbitrary objects. Non-trivial = offset != 0 or \
 year < 1000 or a malformed object; distinct by (instant, offset) / request.".into();
     std::env::set_var("TZ", "UTC");
     // ---------------------------------------------------------------- all offsets at a fixed instant
@@ -301,22 +299,54 @@ year < 1000 or a malformed object; distinct by (instant, offset) / request.".int
                 (Err((site, msg)), _, _) => c.oracle_fail(&format!("panic@{}", site), msg, json!({"text": text})),
                 (Ok(Some((e, o2))), Some((re, ro)), true) => if *e != re || o2.map_or(false, |x| x != ro) {
                     c.oracle_fail(&format!("form:{}", pname), "specification form parsed to another instant", json!({"text": text, "got": show_parsed(&r), "expected": [re, ro]})) },
-                // F-C18-a: only the full form with a numeric offset is known to the time backend
-                (Ok(None), Some(_), true) if pname == "time" && !(text.len() == 23 && !text.ends_with('Z')) => c.count("forms.time_rejects(F-C18-a)"),
                 (Ok(None), Some(_), true) => c.oracle_fail(&format!("form-err:{}", pname), "a form given in the specification does not parse", json!({"text": text})),
                 _ => {}
             }
         }
     }
-    // witnesses of F-C18-a
+    // witnesses of the fixed findings: reproduced = the defect is back
     if let Some(_r) = c.case("witness", 0) {
         let z = Object::string_literal("D:20240229123456Z");
         let d = Object::string_literal("D:20040229");
         let m = Object::string_literal("D:199812231952-08'00'");
-        let rej = [&z, &d, &m].iter().filter(|o| matches!(parse_time(o), Ok(None))).count();
-        c.witness("F-C18-a", rej == 3, &format!("time backend rejects {} of the 3 forms D:…Z, D:YYYYMMDD, D:YYYYMMDDHHmm-08'00' (chrono and jiff accept all)", rej));
-        let t = Object::from(time::Time::MIDNIGHT);
-        c.witness("F-C18-b", obj_text(&t) == "D:%Y%m%d%H%M%SZ", &format!("Object::from(time::Time::MIDNIGHT) = {:?}", obj_text(&t)));
+        let rej = [&z, &d, &m].iter().filter(|o| !matches!(parse_time(o), Ok(Some(_)))).count();
+        c.witness("F-C18-a", rej > 0, &format!("time backend rejects {} of the 3 forms D:…Z, D:YYYYMMDD, D:YYYYMMDDHHmm-08'00'", rej));
+        let t = guard(|| obj_text(&Object::from(time::Time::MIDNIGHT))).unwrap_or_else(|(site, _)| format!("panic {}", site));
+        let shape_ok = t.len() == 17 && t.starts_with("D:") && t.ends_with("000000Z") && t[2..10].bytes().all(|b| b.is_ascii_digit());
+        c.witness("F-C18-b", !shape_ok, &format!("Object::from(time::Time::MIDNIGHT) = {:?}", t));
+    }
+    // ---------------------------------------------------------------- From<time::Time>: a time of day on the current UTC date
+    {
+        let mut tods: Vec<(u8, u8, u8)> = vec![];
+        for h in 0..24u8 { for (mi, se) in [(0u8, 0u8), (59, 59), (7, 5), (30, 0)] { tods.push((h, mi, se)); } }
+        for (i, (h, mi, se)) in tods.iter().enumerate() {
+            let Some(_r) = c.case("time_of_day", i as u64) else { continue };
+            let t = time::Time::from_hms(*h, *mi, *se).expect("time of day");
+            match guard(|| Object::from(t)) {
+                Ok(o) => {
+                    let text = obj_text(&o);
+                    c.count("fmt.time_time");
+                    c.nontrivial(&format!("tod {} {} {}", h, mi, se));
+                    // shape: D: + 8 digits of a date (the clock's) + HHmmSS + Z
+                    let ok = text.len() == 17 && text.starts_with("D:") && text[2..10].bytes().all(|b| b.is_ascii_digit())
+                        && text[10..] == format!("{:02}{:02}{:02}Z", h, mi, se) && obj_is_literal(&o);
+                    if !ok { c.oracle_fail("fmt:time_time", "From<time::Time> is not D:YYYYMMDDHHmmSSZ with the given time of day", json!({"time": [h, mi, se], "got": text})); continue; }
+                    let (y, mo, d): (i64, i64, i64) = (text[2..6].parse().unwrap(), text[6..8].parse().unwrap(), text[8..10].parse().unwrap());
+                    let f = Fields { y, mo, d, h: *h as i64, mi: *mi as i64, s: *se as i64, off: 0 };
+                    c.corr(fields_req("time_time", &f), format!("ok {}", hex_tok(text.as_bytes())));
+                    // it is a date: every backend reads it back as that civil time in UTC
+                    for (pname, p) in [("chrono", parse_chrono as fn(&Object) -> Parsed), ("jiff", parse_jiff), ("time", parse_time)] {
+                        let r = p(&o);
+                        c.corr(format!("c18.parse {} {}", pname, show_obj(&o)), show_parsed(&r));
+                        match &r {
+                            Ok(Some((e, o2))) if *e == epoch_of(&f) && o2.map_or(true, |x| x == 0) => c.count(&format!("pair.time_time->{}", pname)),
+                            _ => c.oracle_fail(&format!("rt:time_time->{}", pname), "the date string of a time of day does not read back", json!({"text": text, "got": show_parsed(&r)})),
+                        }
+                    }
+                }
+                Err((site, msg)) => c.oracle_fail(&format!("panic@{}", site), &msg, json!({"time": [h, mi, se]})),
+            }
+        }
     }
     if let Some(n) = c.counters.get("chrono_local.offset_not_reached").cloned() {
         c.notes.push(format!("chrono DateTime<Local> could not be given the requested offset through TZ in {} cases (those cases ran without the chrono Local producer)", n));
